@@ -28,7 +28,6 @@ SPEC = {
         "hashes_arrival_before_fallback": 200,
         "known_item_announcements": 200,
         "cap_path_pendings": 500,
-        "delay_point_hits": 200,
         "flood_cap_reached": 1,
         "race_detector_runs": 4,
     },
